@@ -60,6 +60,91 @@ class FaultDB(dict):
         return super().__getitem__(key)
 
 
+class HookDB(dict):
+    """
+    A database that calls back into user code from inside a read or a write (an index, a
+    metrics hook, a lazy loader ...): `hook(kind, key)` runs at the n-th access, once.
+    """
+
+    def __init__(self, *a, **kw):
+        super().__init__(*a, **kw)
+        self.hook = None
+        self.countdown = None
+        self.kinds = ("read", "write")
+
+    def arm(self, hook, n, kinds=("read", "write")):
+        self.hook, self.countdown, self.kinds = hook, n, kinds
+
+    def _tick(self, kind, key):
+        if self.hook is not None and kind in self.kinds:
+            if self.countdown <= 0:
+                hook, self.hook = self.hook, None
+                hook(kind, key)
+            else:
+                self.countdown -= 1
+
+    def __getitem__(self, key):
+        self._tick("read", key)
+        return super().__getitem__(key)
+
+    def __setitem__(self, key, value):
+        self._tick("write", key)
+        super().__setitem__(key, value)
+
+
+class WriteThroughDB(dict):
+    """
+    A dict subclass whose item methods are the real interface: writes are forwarded to a
+    backing store and reads are served from it (a journaling / write-through mapping).
+    Code that bypasses __setitem__ (dict.update on the instance, ...) never reaches the store.
+    """
+
+    def __init__(self):
+        super().__init__()
+        self.backing = {}
+
+    def __setitem__(self, key, value):
+        self.backing[key] = value
+        super().__setitem__(key, value)
+
+    def __getitem__(self, key):
+        return self.backing[key]
+
+    def __contains__(self, key):
+        return key in self.backing
+
+    def __delitem__(self, key):
+        del self.backing[key]
+        super().__delitem__(key)
+
+    def pop(self, key, *default):
+        super().pop(key, None)
+        return self.backing.pop(key, *default)
+
+    def get(self, key, default=None):
+        return self.backing.get(key, default)
+
+    def keys(self):
+        return self.backing.keys()
+
+    def items(self):
+        return self.backing.items()
+
+    def __iter__(self):
+        return iter(self.backing)
+
+    def __len__(self):
+        return len(self.backing)
+
+    def __eq__(self, other):
+        return self.backing == other
+
+    __hash__ = None
+
+    def copy(self):
+        return dict(self.backing)
+
+
 class GuardViolation(Exception):
     pass
 
